@@ -32,6 +32,16 @@ def core_arrays(cores, fortran=False):
     return out
 
 
+def caller_array(a, k=0):
+    """data as a careful caller might hold them: read-only (a routine must not write into its inputs) and, for odd k,
+    Fortran-ordered"""
+    a = np.array(a)
+    if k % 2:
+        a = np.asfortranarray(a)
+    a.setflags(write=False)
+    return a
+
+
 def expected_dense(d):
     """spec dense record -> (rd, cd, r0, rN, flat complex vector)"""
     v = carray(d['v']) if len(d['v']) else np.zeros(0, dtype=complex)
